@@ -14,6 +14,25 @@ NA = {
  "C15": "pure function of the input string (stereo annotations)",
  "C20": "pure: the 'fault' is a position in the input string, not an injected runtime fault; malformed strings appear in the C06/C12 simulations only to make one client's call fail mid-history, and what they raise is logged, not judged",
 }
+def chk(pid, text, note, technique, ref):
+    return {"property_id": pid,
+            "quick_cmd": "/venv/bin/python /verif/check.py %s --tier quick" % pid,
+            "thorough_cmd": "/venv/bin/python /verif/check.py %s --tier thorough" % pid,
+            "evidence_file": "/verif/evidence/%s.json" % pid,
+            "replay_cmd_template": "/venv/bin/python /verif/check.py %s --replay {path}" % pid,
+            "engine": "sim",
+            "level_claimed": {"category": "exploration", "text": text, "design_ref": ref},
+            "level_note": note, "technique": technique}
+
+CHECKS = [
+ chk("C06", "Seeded search over histories of resolver objects: three drivers (resolve / resolve_iter / resolve_all) and three constructors over shared fragment libraries, interleaved op by op with co-tenants, aborts at sampled lines, scribbles, abandoned iterators and library growth. Each level of every driver is compared with a pristine per-item reference, each client with its solo run in a pristine fork, each step's coarse graph with the previous fine graph, and the last level with the flattened string and with the molecule the generator constructed. Evidence, not proof: the quantifier over all groupings is sampled.",
+     "Trusted: fork isolation of a warm interpreter; the generator's own molecule model and SMILES/CGsmiles writers (items are cross-checked by an admission self-check); networkx VF2. The composition clause is decided only on generated leaf-decomposition items.",
+     "deterministic simulation: seeded op-level scheduler + fault injection (abort/scribble/abandon/grow) + isolation reference + reference by construction", "DESIGN.md 4/C06"),
+ chk("C12", "Seeded search over call histories sharing fragment dictionaries within one process, under several PYTHONHASHSEED values in fresh interpreters: numbering/naming invariants on every returned graph, byte-identical canonical dumps across constructors, permuted definition blocks, schedules and co-tenants, library snapshots after every event including after aborts at sampled lines and scribbles on returned graphs, event-log digests identical across hash seeds.",
+     "Trusted: canonical dump covers all node/edge attributes reachable from returned graphs; fork isolation; only libraries that were passed in are judged for modification.",
+     "deterministic simulation: seeded op-level scheduler + fault injection + library snapshot invariant + cross-interpreter (hash seed) log comparison", "DESIGN.md 4/C12"),
+]
+
 m = {
  "version": 1,
  "setup_cmd": "/venv/bin/python /verif/check.py selftest --setup",
@@ -21,7 +40,7 @@ m = {
            "baseline_off_cmd": "cd /repo && /venv/bin/python -m pytest -ra -q -p no:cacheprovider --timeout=900 --continue-on-collection-errors",
            "source_commits": [], "add_only": True},
  "engines": [{"name": "sim", "path": "/verif/sim", "serves_properties": [], "kind_free_text": "deterministic simulation with fault injection: seeded scheduler over clients/ops, owned entropy/clock/embedder seams, fork-per-run isolation references, abort injection via sys.settrace, ddmin-minimised replay files"}],
- "checks": [],
+ "checks": CHECKS,
  "notes": "See DESIGN.md. Exit codes: 0 held / 1 VIOLATION / 2 harness error.",
  "not_applicable": [{"property_id": k, "reason": v} for k, v in sorted(NA.items())],
 }
